@@ -457,3 +457,44 @@ Proof.
     apply Nat.ltb_ge in E. rewrite firstn_all2 by exact E. exact H.
   - unfold wsgi_vanished. apply wsgi_shape_firstn. apply wsgi_full_shape.
 Qed.
+
+(* ---------- the file response's constructor ---------- *)
+
+Lemma setitem_refuses_app a b : setitem_refuses (a ++ b) = setitem_refuses a || setitem_refuses b.
+Proof. unfold setitem_refuses. apply existsb_app. Qed.
+
+Lemma clean_text_not_refused s : clean_text s = true -> setitem_refuses s = false.
+Proof.
+  unfold clean_text, setitem_refuses. induction s as [|c s IH]; cbn [forallb existsb]; [reflexivity|].
+  rewrite andb_true_iff. intros [Hc Hs]. rewrite (IH Hs), orb_false_r.
+  rewrite !andb_true_iff, !negb_true_iff, N.ltb_lt, N.ltb_ge, N.eqb_neq in Hc.
+  destruct Hc as [[_ H32] _].
+  destruct (N.eqb_spec c 10) as [->|_]; [lia|]. destruct (N.eqb_spec c 13) as [->|_]; [lia|].
+  destruct (N.eqb_spec c 0) as [->|_]; [lia|]. reflexivity.
+Qed.
+
+Lemma clean_text_app a b : clean_text (a ++ b) = clean_text a && clean_text b.
+Proof. unfold clean_text. apply forallb_app. Qed.
+
+(* A file response either is refused by its constructor, or its Content-Disposition value has no CR, LF
+   or NUL: exactly the names with such a character that are Latin-1 are refused (quote() yields clean
+   ASCII: premise); when the name itself is clean Latin-1 text the whole value is clean Latin-1 text. *)
+Theorem file_disposition_clean_proof (name quoted : bytes) :
+  clean_text quoted = true ->
+  (file_ctor_refuses name quoted = false -> setitem_refuses (disposition name quoted) = false) /\
+  (file_ctor_refuses name quoted = true <-> is_latin1 name = true /\ setitem_refuses name = true) /\
+  (clean_text name = true -> clean_text (disposition name quoted) = true).
+Proof.
+  intros Hq. pose proof (clean_text_not_refused _ Hq) as Hqr.
+  unfold file_ctor_refuses, disposition. split; [|split].
+  - tauto.
+  - destruct (is_latin1 name) eqn:El.
+    + rewrite !setitem_refuses_app, Hqr. vm_compute (setitem_refuses (lit "attachment; filename=""")).
+      vm_compute (setitem_refuses (lit """; filename*=utf-8''")). rewrite !orb_false_r. cbn [orb]. tauto.
+    + rewrite setitem_refuses_app, Hqr. vm_compute (setitem_refuses (lit "attachment; filename*=utf-8''")).
+      cbn [orb]. split; [discriminate|intros [H _]; discriminate].
+  - intros Hn. assert (El : is_latin1 name = true).
+    { unfold clean_text in Hn. unfold is_latin1. rewrite forallb_forall in *. intros c Hc. specialize (Hn c Hc).
+      rewrite !andb_true_iff in Hn. tauto. }
+    rewrite El, !clean_text_app, Hn, Hq. reflexivity.
+Qed.
